@@ -96,7 +96,7 @@ def run_one(job):
         return idx, 'rlimit'
     if vr.get('errors', 0) > 0:
         return idx, 'killed'
-    if vr.get('verified', 0) >= 1 and vr.get('success'):
+    if vr.get('verified', 0) >= 1 and not vr.get('encountered-error'):
         return idx, 'survived'
     return idx, 'invalid'
 
